@@ -15,6 +15,7 @@ func init() { register("C14", checkC14) }
 
 func checkC14(c *Check) {
 	p := c.P
+	c.configuredHoldTimeProvenance("C14.1 configured-hold-time")
 	fn := p.Fn("newOpenMessage")
 	if fn == nil || len(fn.Params) != 4 {
 		c.undecided("C14.anchor", "newOpenMessage", "signature", "-", "expected (asn, holdTime, bgpID, caps)")
